@@ -12,12 +12,16 @@ from . import lib_setup as L
 RULE = ("case = product graph (3-7 names x 1-3 versions, DAG by name order, required/optional edges with bare / explicit / "
         "relational / 'v [expr]' specs, -j, if (type == exact) blocks, random current/beta tags; ~10% with name-level "
         "cycles across versions) + prior environment + history of 1-5 requests (setup/unsetup, keep, max-depth, just, "
-        "explicit/bare/relational top-level version, -t beta, --inexact per history); a case is non-trivial when some "
+        "explicit/bare/relational top-level version, -t beta, --inexact per history); dependency lines with their own "
+        "-t (15%) / -k (8%), multi-element envPrepend values, directory-less products, a second stack on 30% of graphs; "
+        "a case is non-trivial when some "
         "request changes the environment; distinct = distinct (graph, prior, history) digests")
 TRUSTED = ["harness/lib_setup.py: generator, canonicaliser (element lists split at the variable's delimiter, $S for the "
            "stack root), the tagging of strings as own/foreign elements in lean/EupsModel/Drv/C01.lean",
            "CPython dict/str semantics, os.environ handling, fork"]
-ASSUMPTIONS = ["one stack, one flavor (Linux); product directories distinct and not nested; versions are dotted numbers",
+ASSUMPTIONS = ["one or two stacks (a product may be declared in both under one version name; EUPS_PATH is drawn per request), "
+               "one flavor (Linux); product directories distinct and not nested ('none' for directory-less products); versions "
+               "are dotted numbers",
                "tables contribute through ${PRODUCT_DIR} or literals that lie under no product directory; no table writes "
                "SETUP_*/*_DIR or uses one variable both as a path and as an envSet target",
                "prior environments are the ones eups itself produced over still-declared versions (clause (c) is "
